@@ -64,7 +64,8 @@ def gen_case(tape, tier):
         kind = tape.pick(["outputs", "outputs", "run_info", "xarray"], "op")
         if kind == "outputs":
             names = [tape.pick(outs, "name") for _ in range(1 + tape.choose(3, "nnames"))]
-            ops.append({"op": "outputs", "names": names})
+            # mutate: the caller modifies the loaded object in place afterwards; later loads must not see that
+            ops.append({"op": "outputs", "names": names, "mutate": bool(tape.coin(0.3, "mutate-loaded"))})
         elif kind == "run_info":
             ops.append({"op": "run_info"})
         else:
@@ -82,6 +83,9 @@ def gen_case(tape, tier):
     if pre.startswith("crashed"):
         cfg["pre_crash_at"] = 2 + tape.choose(60, "pre-crash-at")
     cfg["pre"] = pre
+    # an earlier *process* left the folder behind (process-wide caches are gone) or the same long-lived process
+    # (a notebook) ran the earlier map itself (they are still there)
+    cfg["pre_same_process"] = pre in ("complete-other", "partial-same") and bool(tape.coin(0.5, "pre-same-process"))
     # a small share of the cases is executed for real: map in one child interpreter (run as a script, values
     # of a class defined in its __main__, real Manager processes), reload in a second, fresh child interpreter
     if tape.coin(0.006 if tier == "quick" else 0.003, "real-children"):
@@ -282,6 +286,18 @@ def run_case(case, exec_seed=None, exec_tape=None):
                         V("load_outputs", f"value-differs:{where}", {"name": n, "got": repr(canon(g))[:300],
                                                                       "expected": repr(truth["R"][n])[:300]})
                         return
+                if op.get("mutate"):
+                    import numpy as np
+
+                    for g in got:
+                        try:
+                            if isinstance(g, np.ndarray) and g.size:
+                                g.reshape(-1)[0] = "<mutated-by-caller>"
+                            elif isinstance(g, list) and g:
+                                g[0] = "<mutated-by-caller>"
+                        except Exception:  # noqa: BLE001 - read-only or odd shapes: nothing to mutate
+                            pass
+                    probes["loaded_value_mutated"] = probes.get("loaded_value_mutated", 0) + 1
             elif op["op"] == "run_info":
                 try:
                     ri = RunInfo.load(folder)
@@ -373,6 +389,10 @@ def run_case(case, exec_seed=None, exec_tape=None):
                         probes["pre_partial_refused"] = 1
                 simmanager.shutdown_all(simp)
             probes[f"pre:{pre}"] = 1
+            if cfg.get("pre_same_process"):
+                probes["pre_same_process"] = 1
+            else:
+                _cached_load.cache_clear()  # an earlier process: its process-wide lru cache died with it
 
         # ---- process A: run, then loads in the same process until the first exit
         idx = 0
